@@ -94,11 +94,11 @@ func sameSnaps(label string, step int, got []*asset.Snapshot, want []*asset.Snap
 
 // H_C10: an operation history over two asset names against a map model.
 // code: decimal digits, one per step (least significant first): digit%5 = operation
-// (0 Append 1 snapshot, 1 Get, 2 GetSince, 3 LastDate, 4 Assets), digit/5 = asset (0 "aaa", 1 "bbb").
-// Step 0 is preceded by an Append of two snapshots to "aaa" when seed == 1.
+// (0 Append 1 snapshot, 1 Get, 2 GetSince, 3 LastDate, 4 Assets), digit/5 = asset (0 "aaa", 1 "v.cs").
+// Step 0 is preceded by an Append of two snapshots to "aaa" when seed == 1, of three to "v.cs" when seed == 2.
 func H_C10(kind, steps, code, seed int) {
 	repo := newRepo(kind)
-	names := []string{"aaa", "bbb"}
+	names := []string{"aaa", "v.cs"} // the second name ends in characters of ".csv" (suffix handling)
 	model := map[string][]*asset.Snapshot{}
 	order := []string{}
 	appendTo := func(name string, ss []*asset.Snapshot, step int) {
@@ -111,6 +111,9 @@ func H_C10(kind, steps, code, seed int) {
 	}
 	if seed == 1 {
 		appendTo("aaa", []*asset.Snapshot{symSnap("s", 0), symSnap("s", 1)}, 99)
+	}
+	if seed == 2 {
+		appendTo("v.cs", []*asset.Snapshot{symSnap("s", 0), symSnap("s", 1), symSnap("s", 2)}, 99)
 	}
 	for s := 0; s < steps; s++ {
 		digit := code % 10
